@@ -542,7 +542,7 @@ _MSWEEP_DOCS = [
      'parser': 'html.parser', 'mut': []},
 ]
 MSWEEP_FAMILIES = [
-    ('lang', [':lang(de)', ':lang(en)', 'p:lang("*-DE", en)', ':not(:lang(de))']),
+    ('lang', [':lang(de)', ':lang(en)', 'p:lang("*-DE", en)', ':not(:lang(de))', ':lang(fr, de, en)']),
     ('nth', ['li:nth-child(odd)', 'li:nth-child(2n+1)', 'p:nth-of-type(2)', ':nth-child(2 of .a)', ':nth-last-child(-n+2)']),
     ('dir', [':dir(rtl)', ':dir(ltr)', 'p:dir(ltr)']),
     ('form', [':default', ':indeterminate', ':checked', ':in-range, :out-of-range', ':required']),
@@ -563,8 +563,11 @@ def msweep_pairs():
         k0, k1 = base, base + 1
         q = lambda op, k, d, t=-1, form='precompiled': dict(  # noqa: E731
             {'op': op, 'key': k, 'doc': d, 'target': t, 'form': form}, **({'limit': 0} if op == 'select' else {}))
-        # same pattern on another document, the shared state primed with a sibling pattern first
-        pairs.append((fam, q('select', k0, 0), q('select', k0, 1), q('select', k1, 1)))
+        # same pattern on another document, the shared state primed with a sibling pattern first (every pattern of the
+        # family takes the victim's role once: multi-part patterns have windows that single-part ones do not)
+        for j in range(len(pats)):
+            kj, ks = base + j, base + (j + 1) % len(pats)
+            pairs.append((fam, q('select', kj, j % 2), q('select', kj, 1 - j % 2), q('select', ks, 1 - j % 2) if j % 3 != 2 else None))
         # a sibling pattern asked about one element while the victim walks the document
         pairs.append((fam, q('select', k0, 0), q('match', k1, 0, 9), None))
         # the victim asks about one element (and compiles inside the call), the peer selects with the same pattern
@@ -590,8 +593,10 @@ def run_msweep(sv, index, bound):
     length = got[1][0][0]
     sites = got[3]      # [function, line, visits] of the victim query run alone
     # every site at its first visit, then half-way through its visits, then at its last visit
-    allp = ([[fn, ln, 1] for fn, ln, n in sites] + [[fn, ln, n // 2 + 1] for fn, ln, n in sites if n > 1]
-            + [[fn, ln, n] for fn, ln, n in sites if n > 2])
+    # (sites visited only a few times are the two-step publications and short loops: their later visits come before
+    # those of the per-element loops)
+    allp = ([[fn, ln, 1] for fn, ln, n in sites] + [[fn, ln, n // 2 + 1] for fn, ln, n in sites if 1 < n <= 6]
+            + [[fn, ln, n // 2 + 1] for fn, ln, n in sites if n > 6] + [[fn, ln, n] for fn, ln, n in sites if n > 2])
     points = allp[batch * MSWEEP_BATCH:(batch + 1) * MSWEEP_BATCH]
     if not points:
         return {'discarded': 'sweep-batch-beyond-end-of-operation'}
@@ -694,7 +699,7 @@ def plan(tier):
     # (function, line) site it reaches while the peer runs a whole query of the same family
     npairs = len(msweep_pairs()[1])
     cfgs.append({'name': 'msweep-k500', 'mode': 'msweep', 'bound': 500, 'chunk': 8,
-                 'nruns': npairs * (8 if tier != 'thorough' else 16)})
+                 'nruns': npairs * (9 if tier != 'thorough' else 17)})
     # the systematic sweeps are dispatched first in every round: a deadline cut then only shortens the random sampling
     for c in cfgs:
         if c['mode'] in ('sweep', 'msweep'):
